@@ -322,6 +322,11 @@ class C12(Prop):
             i = issues[0]
             fail = (false_issue_signature(m, i, g.version_info),
                     'CPython %s compiles it; parso %s reports %r at %r: %s' % (client.JUDGE[v], v, i.message, i.start_pos, short(code, 200)))
+        if fail is not None and client.JUDGE[v] in ('3.6', '3.7'):
+            # ... and for rules that 3.8 dropped ('continue' in 'finally') the 3.8 cross-check cannot help: ask the same
+            # interpreter again with every constant `if`/`while` test replaced by a name, so that nothing is dead
+            if not o.ask(op='compile_live', src=code).get('ok'):
+                return Outcome(excluded='CPython <=3.7 accepts only because the offending code is statically dead')
         classes = ['py' + client.JUDGE[v]]
         feats = []
         for name, pat in (('fstring', r'''(?i)\b[rb]?f[rb]?['"]'''), ('decorator', r'(?m)^\s*@'), ('global', r'\b(?:global|nonlocal)\b'),
